@@ -195,6 +195,13 @@ fn axes() -> Vec<(String, Box<dyn Fn(&mut Form, &mut bool) + Send + Sync>)> {
     add(&mut v, "unknown-field", Box::new(|f, _| f.fields.insert(1, ("x-ignore-me".into(), "1".into()))));
     add(&mut v, "field-after-file", Box::new(|f, _| f.after.push(("submit".into(), "Upload".into()))));
     add(&mut v, "key-with-specials", Box::new(|f, _| f.set_field("key", "up/a b+c%d&e=f?g#h/é😀")));
+    // values whose edges are white space (a value ends where the CRLF of the next delimiter begins, not earlier)
+    add(&mut v, "key-ends-in-blank", Box::new(|f, _| f.set_field("key", "up/draft ")));
+    add(&mut v, "key-starts-with-blank-ends-in-tab", Box::new(|f, _| f.set_field("key", " up/draft\t")));
+    add(&mut v, "key-ends-in-line-break", Box::new(|f, _| f.set_field("key", "up/draft\r\n")));
+    add(&mut v, "meta-edge-blanks", Box::new(|f, _| f.fields.insert(1, ("x-amz-meta-a".into(), " v ".into()))));
+    add(&mut v, "meta-blank-only", Box::new(|f, _| f.fields.insert(1, ("x-amz-meta-a".into(), " ".into()))));
+    add(&mut v, "meta-ends-in-tab", Box::new(|f, _| f.fields.insert(1, ("x-amz-meta-a".into(), "v\t".into()))));
     add(&mut v, "key-empty-prefix-only", Box::new(|f, _| f.set_field("key", "up/")));
     add(&mut v, "boundary-short", Box::new(|f, _| f.boundary = "b".into()));
     add(&mut v, "boundary-70", Box::new(|f, _| f.boundary = "B".repeat(70)));
